@@ -6,7 +6,10 @@ use crate::core::consensus::blockchain::Blockchain;
 use crate::core::consensus::peers::peer_collection::PeerCollection;
 use ahash::HashMap;
 use log::{debug, error, info, trace, warn};
+#[cfg(not(saito_verif))]
 use tokio::sync::RwLock;
+#[cfg(saito_verif)]
+use crate::core::util::verif::RwLock;
 
 use crate::core::defs::{BlockHash, BlockId, PeerIndex, PrintForLog, SaitoHash};
 
